@@ -4,6 +4,21 @@ open Lp Lp.C19
 
 def pInts : P (List Int) := pList pInt
 
+/-- one `double` element of a `Lists_Equal` request: `nan`, `inf`, `-inf`, a hex float, or a
+    negative zero the harness computes (`z.lit` = `-0.0`, `z.ceil` = `ceil(-0.25)`, `z.round` =
+    `round(-0.4)`, `z.under` = underflow of a negative product) — every zero denotes the rational 0 -/
+def pDbl : P Dbl := do
+  let t ← tok
+  if t = "nan" then pure .nan
+  else if t = "inf" then pure .pinf
+  else if t = "-inf" then pure .ninf
+  else if t = "z.lit" ∨ t = "z.ceil" ∨ t = "z.round" ∨ t = "z.under" then pure (.fin 0)
+  else match parseRat t with
+    | some r => pure (.fin r)
+    | none => failure
+
+def pDbls : P (List Dbl) := pList pDbl
+
 def showLL (ls : List (List Int)) : String :=
   toString ls.length ++ " " ++ " ".intercalate (ls.map (fun l => toString l.length ++ " " ++ showInts l))
 
@@ -27,6 +42,10 @@ def handle : Handler := fun op args =>
       | .error _ => "err"
   | "c19.listseq" => withArgs (do let a ← pInts; let b ← pInts; pure (a, b)) args fun (a, b) =>
       "ok " ++ (if listsEqual a b then "1" else "0")
+  | "c19.listseqd" => withArgs (do let a ← pDbls; let b ← pDbls; pure (a, b)) args fun (a, b) =>
+      "ok " ++ (if listsEqualD a b then "1" else "0")
+  | "c19.listseqd2" => withArgs (do let a ← pList pDbls; let b ← pList pDbls; pure (a, b)) args fun (a, b) =>
+      "ok " ++ (if listsEqualDD a b then "1" else "0")
   | "c19.combine" => withArgs (do let a ← pInts; let b ← pInts; pure (a, b)) args fun (a, b) =>
       let l := combine a b
       "ok " ++ toString l.length ++ " " ++ showInts l
